@@ -180,6 +180,34 @@ pub fn create_array_constructor(interp: &mut Interpreter) -> JsObjectRef {
     constructor
 }
 
+/// ToIntegerOrInfinity of argument `i`; a missing or `undefined` argument gives `default`
+fn integer_arg(
+    interp: &mut Interpreter,
+    args: &[JsValue],
+    i: usize,
+    default: f64,
+) -> Result<f64, JsError> {
+    match args.get(i) {
+        None | Some(JsValue::Undefined) => Ok(default),
+        Some(v) => {
+            let n = interp.coerce_to_number(v)?;
+            Ok(if n.is_nan() { 0.0 } else { crate::prelude::math::trunc(n) })
+        }
+    }
+}
+
+/// A relative index (negative counts from the end) clamped to 0..=len
+fn relative_index(n: f64, len: usize) -> usize {
+    let abs = if n < 0.0 { len as f64 + n } else { n };
+    if abs <= 0.0 {
+        0
+    } else if abs >= len as f64 {
+        len
+    } else {
+        abs as usize
+    }
+}
+
 pub fn array_constructor_fn(
     interp: &mut Interpreter,
     _this: JsValue,
@@ -617,7 +645,7 @@ pub fn array_index_of(
     };
 
     let search_element = args.first().cloned().unwrap_or(JsValue::Undefined);
-    let from_index = args.get(1).map(|v| v.to_number() as i64).unwrap_or(0);
+    let from_index = args.get(1).filter(|v| !v.is_undefined()).map(|v| v.to_number() as i64).unwrap_or(0);
 
     // Use array-like length with full ToLength coercion (works on both arrays and array-like objects)
     let length = get_array_like_length(interp, &arr)? as i64;
@@ -653,7 +681,7 @@ pub fn array_includes(
     };
 
     let search_element = args.first().cloned().unwrap_or(JsValue::Undefined);
-    let from_index = args.get(1).map(|v| v.to_number() as i64).unwrap_or(0);
+    let from_index = args.get(1).filter(|v| !v.is_undefined()).map(|v| v.to_number() as i64).unwrap_or(0);
 
     // Use array-like length with full ToLength coercion (works on both arrays and array-like objects)
     let length = get_array_like_length(interp, &arr)? as i64;
@@ -698,20 +726,8 @@ pub fn array_slice(
         .array_length()
         .ok_or_else(|| JsError::type_error("Not an array"))? as i64;
 
-    let start_arg = args.first().map(|v| v.to_number() as i64).unwrap_or(0);
-    let end_arg = args.get(1).map(|v| v.to_number() as i64).unwrap_or(length);
-
-    let start = if start_arg < 0 {
-        (length + start_arg).max(0)
-    } else {
-        start_arg.min(length)
-    };
-
-    let end = if end_arg < 0 {
-        (length + end_arg).max(0)
-    } else {
-        end_arg.min(length)
-    };
+    let start = relative_index(integer_arg(interp, args, 0, 0.0)?, length as usize) as i64;
+    let end = relative_index(integer_arg(interp, args, 1, length as f64)?, length as usize) as i64;
 
     let mut result = Vec::new();
     for i in start..end {
@@ -850,6 +866,8 @@ pub fn array_join(
 
         let part = match elem {
             JsValue::Undefined | JsValue::Null => String::new(),
+            // objects (nested arrays included) are converted with their own toString
+            JsValue::Object(_) => interp.coerce_to_string(&elem)?.to_string(),
             _ => interp.to_js_string(&elem).to_string(),
         };
         parts.push(part);
@@ -1146,6 +1164,7 @@ pub fn array_fill(
 
     let start = args
         .get(1)
+        .filter(|v| !v.is_undefined())
         .map(|v| {
             let n = v.to_number() as i64;
             if n < 0 {
@@ -1158,6 +1177,7 @@ pub fn array_fill(
 
     let end = args
         .get(2)
+        .filter(|v| !v.is_undefined())
         .map(|v| {
             let n = v.to_number() as i64;
             if n < 0 {
@@ -1198,6 +1218,7 @@ pub fn array_copy_within(
 
     let target = args
         .first()
+        .filter(|v| !v.is_undefined())
         .map(|v| {
             let n = v.to_number() as i64;
             if n < 0 {
@@ -1210,6 +1231,7 @@ pub fn array_copy_within(
 
     let start = args
         .get(1)
+        .filter(|v| !v.is_undefined())
         .map(|v| {
             let n = v.to_number() as i64;
             if n < 0 {
@@ -1222,6 +1244,7 @@ pub fn array_copy_within(
 
     let end = args
         .get(2)
+        .filter(|v| !v.is_undefined())
         .map(|v| {
             let n = v.to_number() as i64;
             if n < 0 {
@@ -1258,31 +1281,33 @@ pub fn array_splice(
         ));
     };
 
+    let length = arr
+        .borrow()
+        .array_elements()
+        .ok_or_else(|| JsError::type_error("Array.prototype.splice called on non-array"))?
+        .len();
+    // splice() removes nothing; splice(start) removes to the end; an explicit deleteCount
+    // (even undefined) is ToIntegerOrInfinity'ed
+    let start = relative_index(integer_arg(interp, args, 0, 0.0)?, length);
+    let delete_count = if args.is_empty() {
+        0
+    } else if args.len() == 1 {
+        length - start
+    } else {
+        let n = integer_arg(interp, args, 1, 0.0)?;
+        if n <= 0.0 {
+            0
+        } else if n >= (length - start) as f64 {
+            length - start
+        } else {
+            n as usize
+        }
+    };
+
     let mut arr_ref = arr.borrow_mut();
     let elements = arr_ref
         .array_elements_mut()
         .ok_or_else(|| JsError::type_error("Array.prototype.splice called on non-array"))?;
-    let length = elements.len() as i64;
-
-    let start = args
-        .first()
-        .map(|v| {
-            let n = v.to_number() as i64;
-            if n < 0 {
-                (length + n).max(0)
-            } else {
-                n.min(length)
-            }
-        })
-        .unwrap_or(0) as usize;
-
-    let delete_count = args
-        .get(1)
-        .map(|v| {
-            let n = v.to_number() as i64;
-            n.max(0).min(length - start as i64) as usize
-        })
-        .unwrap_or((length - start as i64) as usize);
 
     // Remove elements and collect them
     let removed: Vec<JsValue> = elements.drain(start..start + delete_count).collect();
@@ -1629,7 +1654,7 @@ pub fn array_flat(
         ));
     };
 
-    let depth = args.first().map(|v| v.to_number() as i32).unwrap_or(1);
+    let depth = args.first().filter(|v| !v.is_undefined()).map(|v| v.to_number() as i32).unwrap_or(1);
 
     // `nesting` bounds the native recursion (an array may contain itself) and the result
     // size is bounded like every other array.
@@ -1974,17 +1999,31 @@ pub fn array_to_spliced(
         .array_length()
         .ok_or_else(|| JsError::type_error("Not an array"))? as i32;
 
-    let start_arg = args.first().map(|v| v.to_number() as i32).unwrap_or(0);
+    let start_arg = args.first().filter(|v| !v.is_undefined()).map(|v| v.to_number() as i32).unwrap_or(0);
     let start = if start_arg < 0 {
         (length + start_arg).max(0) as u32
     } else {
         (start_arg as u32).min(length as u32)
     };
 
-    let delete_count = args
-        .get(1)
-        .map(|v| (v.to_number() as i32).max(0) as u32)
-        .unwrap_or((length as u32).saturating_sub(start));
+    // toSpliced() removes nothing, toSpliced(start) removes to the end, an explicit
+    // skipCount (even undefined) is ToIntegerOrInfinity'ed
+    let delete_count = if args.is_empty() {
+        0
+    } else {
+        args.get(1)
+            .map(|v| {
+                let n = v.to_number();
+                if n.is_nan() || n <= 0.0 {
+                    0
+                } else if n >= length as f64 {
+                    length as u32
+                } else {
+                    n as u32
+                }
+            })
+            .unwrap_or((length as u32).saturating_sub(start))
+    };
     let delete_count = delete_count.min(length as u32 - start);
 
     let mut result: Vec<JsValue> = (0..start)
@@ -2028,7 +2067,7 @@ pub fn array_with(
         .array_length()
         .ok_or_else(|| JsError::type_error("Not an array"))? as i32;
 
-    let index_arg = args.first().map(|v| v.to_number() as i32).unwrap_or(0);
+    let index_arg = args.first().filter(|v| !v.is_undefined()).map(|v| v.to_number() as i32).unwrap_or(0);
     let index = if index_arg < 0 {
         length + index_arg
     } else {
